@@ -97,6 +97,7 @@ func init() {
 		c08Op{name: "SetPageOrientation", kind: "sect", arg: 4},
 	)
 	c08Ops = append(c08Ops, c08Op{name: "ToBytes", kind: "save"})
+	c08Ops = append(c08Ops, c08Op{name: "work on another document (build, save, reopen, render as template)", kind: "other"})
 	c08Ops = append(c08Ops, c08Op{name: "RemoveParagraph(nil)", kind: "rmNil"},
 		c08Op{name: "RemoveParagraph(foreign)", kind: "rmForeign"},
 		c08Op{name: "RemoveParagraph(stale)", kind: "rmStale"})
@@ -327,6 +328,13 @@ func (i *c08Inst) Apply(op int) (string, []rep.Violation) {
 		i.lastNT = true
 		viol = append(viol, i.compare(o.name)...)
 		return "appended", viol
+	case "other":
+		// somebody else's document: this one's body must stay as it is
+		if p := interfere(); p != "" {
+			return "panic", []rep.Violation{i.viol("panic|"+panicClass(p), o.name, p)}
+		}
+		viol = append(viol, i.compare(o.name)...)
+		return "other-document", viol
 	case "save":
 		// serialising is an observation: it must not change the body
 		var err error
